@@ -443,6 +443,18 @@ def ttp_cases(draw: Any) -> dict:
                            amin, amin + draw(st.integers(0, 2))]
         case["budget"] = draw(st.one_of(st.integers(1, 12),
                                         st.integers(13, 60)))
+        if draw(st.booleans()):
+            # ... and with binding separation limits; the error count of
+            # complete plans (larger budgets) is compared rule by rule
+            smin = draw(st.integers(0, 2))
+            case["sep"] = [smin, smin + draw(st.integers(0, 4))]
+            case["inst"] = draw(st.sampled_from(
+                [r for r in TTP_RESOURCES if r[-1] in "46"]))
+            # random sampling returns complete plans that still break many
+            # rules; the local searches repair separation errors first
+            case["setup"] = draw(st.sampled_from(["rs", "rs", "rls",
+                                                  "mo_nsga2", "mo_rls"]))
+            case["budget"] = draw(st.integers(30, 400))
     return case
 
 
@@ -465,7 +477,7 @@ def check_ttp(ctx: Ctx, case: dict) -> None:
         days = (int(inst.n_cities) - 1) * int(inst.rounds)
         inst = sut("ttp Instance()", Instance, inst.name + "s",
                    np.array(inst), inst.teams, int(inst.rounds),
-                   *case["streaks"], 0, days)
+                   *case["streaks"], *(case.get("sep") or (0, days)))
     n, rounds = int(inst.n_cities), int(inst.rounds)
     stg = (inst.home_streak_min, inst.home_streak_max, inst.away_streak_min,
            inst.away_streak_max, inst.separation_min, inst.separation_max)
@@ -533,6 +545,7 @@ def check_ttp(ctx: Ctx, case: dict) -> None:
     ctx.rec.case(case, nontrivial=r1["last_imp"] > 1, labels=[
         "family=ttp", f"ttp.setup={case['setup']}",
         "ttp.complete_plan" if complete else "ttp.plan_with_byes",
+        "ttp.own_streak_and_separation_limits" if case.get("sep") else
         "ttp.own_streak_limits" if case.get("streaks")
         else "ttp.bundled_limits",
         "ttp.feasible" if not why else "ttp.infeasible"])
@@ -727,10 +740,14 @@ def _clone_system(base: Any, k: int, case: dict) -> Any:
             kw[name] = np.array(base.test_starting_states[:1])
         elif name == "training_starting_states":
             kw[name] = np.array(base.training_starting_states[:k])
-        elif name in ("test_steps", "training_steps"):
+        elif name == "training_steps":
             kw[name] = case["steps"]
-        elif name in ("test_time", "training_time"):
+        elif name == "training_time":
             kw[name] = float(case["time"])
+        elif name == "test_steps":  # differs from the training budget
+            kw[name] = case["steps"] + 2
+        elif name == "test_time":
+            kw[name] = float(case["time"]) * 2.0
         elif name == "plot_examples":
             kw[name] = (0,)
         else:
